@@ -286,6 +286,26 @@ def run_case(ctx, case):
         ctx.count("explicit_size_name_checks")
         if len(set(nm)) != len(nm):
             ctx.violation("c19_name_reused", {"params": p, "names": nm, "where": "explicit sizes"})
+    # ... and when a request that cannot be honoured (fewer jobs than machines where that is not
+    # allowed) was refused between successful ones
+    if not p["allow_less_jobs_than_machines"]:
+        g7 = make(p)
+        nm7 = []
+        refused = 0
+        for step in range(5):
+            if step in (0, 2, 3):
+                try:
+                    nm7.append(g7.generate(num_jobs=1, num_machines=3).name)
+                except Exception:
+                    refused += 1
+            else:
+                nm7.append(g7.generate().name)
+        nm7.append(g7.generate().name)
+        ctx.count("name_checks_with_refused_requests_in_between")
+        ctx.count("explicit_requests_refused", refused)
+        if len(set(nm7)) != len(nm7):
+            ctx.violation("c19_name_reused", {"params": p, "names": nm7,
+                                              "where": "refused explicit requests in between"})
     # only one size given explicitly: the other one is drawn from its range; a request that
     # cannot be honoured may be refused with ValidationError, never answered out of range
     from job_shop_lib.exceptions import ValidationError
